@@ -64,7 +64,8 @@ def atom_message(atom: str, n: int) -> Any:
     if letter in ("W", "N"):
         return mk(name, address=addr, handle=HAND[h])
     if letter == "E":
-        return mk(name, address=addr, handle=HAND[h], error=133)
+        # error codes: a common one, and one above 255 (ESP_GATT_CONN_NONE = 0x101) for the second address
+        return mk(name, address=addr, handle=HAND[h], error=133 if a == 1 else 0x101)
     if letter == "D":
         return mk(name, address=addr, handle=HAND[h], data=f"ntf{a}{h}-{n}".encode())
     if letter in ("P", "U"):
@@ -82,7 +83,7 @@ def atom_message(atom: str, n: int) -> Any:
     if letter == "CU":
         return mk(name, address=addr, connected=True, mtu=23 + n, error=0)
     if letter == "CD":
-        return mk(name, address=addr, connected=False, mtu=0, error=133)
+        return mk(name, address=addr, connected=False, mtu=0, error=133 if a == 1 else 0x100)
     raise HarnessError(atom)
 
 
@@ -756,6 +757,74 @@ def cancel_sweep(res: Result, only: str | None = None) -> int:
     return n
 
 
+def reentrancy_sweep(res: Result, only: str | None = None) -> int:
+    """An operation started from inside a Bluetooth callback - while a message of the very type the new operation subscribes to is being
+    dispatched: the new operation and every other pending one (other address included) complete with their own responses."""
+    from ..world import mk as _mk
+
+    n = 0
+    for starter in ("conn-state-callback", "notify-data-callback"):
+        for inner in ("read", "write", "notify", "disc"):
+            key = f"reentrant:{starter}:{inner}"
+            if only is not None and key != only:
+                continue
+            h = BleHarness(("read@2.1",), (), "none")
+            w = h.fresh()
+            try:
+                c = w.client
+                a1, hd = ADDR[1], HAND[1]
+                started: list[str] = []
+
+                def start_inner() -> None:
+                    if started:
+                        return
+                    started.append(inner)
+                    if inner == "read":
+                        w.spawn("inner", lambda: c.bluetooth_gatt_read(a1, hd, timeout=20.0))
+                    elif inner == "write":
+                        w.spawn("inner", lambda: c.bluetooth_gatt_write(a1, hd, b"\x01", True, timeout=20.0))
+                    elif inner == "notify":
+                        w.spawn("inner", lambda: c.bluetooth_gatt_start_notify(a1, HAND[2], lambda hh, data: None, timeout=20.0))
+                    else:
+                        w.spawn("inner", lambda: c.bluetooth_device_disconnect(a1, timeout=20.0))
+
+                if starter == "conn-state-callback":
+                    w.spawn("outer", lambda: c.bluetooth_device_connect(a1, lambda conn, mtu, err: start_inner(), timeout=20.0, disconnect_timeout=5.0))
+                    trigger = _mk("BluetoothDeviceConnectionResponse", address=a1, connected=True, mtu=23, error=0)
+                else:
+                    w.spawn("outer", lambda: c.bluetooth_gatt_start_notify(a1, hd, lambda hh, data: start_inner(), timeout=20.0))
+                    w.drain()
+                    w.io_chunk(w.sock, w.dframe(_mk("BluetoothGATTNotifyResponse", address=a1, handle=hd)))
+                    trigger = _mk("BluetoothGATTNotifyDataResponse", address=a1, handle=hd, data=b"x")
+                w.drain()
+                w.io_chunk(w.sock, w.dframe(trigger))
+                w.drain()
+                answers = {
+                    "read": _mk("BluetoothGATTReadResponse", address=a1, handle=hd, data=b"inner"),
+                    "write": _mk("BluetoothGATTWriteResponse", address=a1, handle=hd),
+                    "notify": _mk("BluetoothGATTNotifyResponse", address=a1, handle=HAND[2]),
+                    "disc": _mk("BluetoothDeviceConnectionResponse", address=a1, connected=False, mtu=0, error=0),
+                }
+                if w.is_open():
+                    w.io_chunk(w.sock, w.dframe(answers[inner]))
+                    w.drain()
+                if w.is_open():
+                    w.io_chunk(w.sock, w.dframe(_mk("BluetoothGATTReadResponse", address=ADDR[2], handle=HAND[1], data=b"other")))
+                    w.drain()
+                n += 1
+                d = {"harness": "c16-reentrant", "key": key}
+                if not started:
+                    res.add(key, f"C16:reentrant:the {starter} was never invoked", d)
+                    continue
+                bad = [f"{nm}={w.outcome(nm)}" for nm in ("outer", "inner", "read@2.1") if w.outcome(nm) != "ok"]
+                if bad or not w.is_open():
+                    res.add(key, f"C16:reentrant:{inner} started from inside the {starter}: {bad or 'all ok'}; connection {'up' if w.is_open() else 'lost'} "
+                            f"(loop errors: {[str(e.get('exc'))[:80] for e in w.loop.errors[-1:]]})", d)
+            finally:
+                h.close(w)
+    return n
+
+
 def factory(ops: tuple[str, ...], late: tuple[str, ...], pairs: str) -> BleHarness:
     return BleHarness(ops, late, pairs)
 
@@ -796,6 +865,7 @@ def run(tier: str, seed: int) -> Result:
                                         "violated": v["violated"], "observations": v["observations"]})
         total.merge(st)
     n_cancel = cancel_sweep(res)
+    n_reent = reentrancy_sweep(res)
     ends = {k[4:] for k in total.tags if k.startswith("end:")}
     need = {"read:ok", "read:BluetoothGATTAPIError", "read:BluetoothConnectionDroppedError", "read:TimeoutAPIError", "conn:ok", "conn:TimeoutAPIError"}
     if not res.violations and not need <= ends:
@@ -807,6 +877,7 @@ def run(tier: str, seed: int) -> Result:
         "executions": total.executions,
         "endings_observed": sorted(ends),
         "caller_cancellation_runs": n_cancel,
+        "reentrant_start_runs": n_reent,
         "distinct_outcomes": len(total.outcomes),
         "configs": per_cfg,
         "exhaustive": not total.time_capped,
@@ -828,6 +899,11 @@ def run(tier: str, seed: int) -> Result:
 
 def replay(rp: dict[str, Any]) -> bool:
     d = rp["detail"]
+    if d.get("harness") == "c16-reentrant":
+        r = Result("C16", "model_checking")
+        reentrancy_sweep(r, only=d["key"])
+        print(d["key"], "->", [v.clause for v in r.violations] or "holds")
+        return not r.violations
     if d.get("harness") == "c16-cancel":
         r = Result("C16", "model_checking")
         cancel_sweep(r, only=d["key"])
